@@ -8,4 +8,10 @@ require (
 	github.com/sarchlab/mgpusim/v4 v4.0.0
 )
 
+require (
+	github.com/mattn/go-sqlite3 v1.14.32 // indirect
+	github.com/rs/xid v1.6.0 // indirect
+	github.com/tebeka/atexit v0.3.0 // indirect
+)
+
 replace github.com/sarchlab/mgpusim/v4 => /repo
